@@ -276,7 +276,12 @@ def check_all_entry(ctx, fail, key, shown, b, ctext):
     if st_ != "ok" or first is None:
         fail("soundness:all-example", "could not compute the first falsifying assignment of %r (%r)" % (key, first), key)
         return
-    exp = [(t, arepr(v)) for t, v in zip(targets, first)]
+    import inspect as _inspect
+
+    def is_listed(v):  # classes, functions, methods, modules and builtins are left out of messages (C20)
+        return not (_inspect.isclass(v) or _inspect.isfunction(v) or _inspect.ismethod(v) or _inspect.ismodule(v) or _inspect.isbuiltin(v))
+
+    exp = [(t, arepr(v)) for t, v in zip(targets, first) if is_listed(v)]
     if list(shown) != exp:
         fail("soundness:all-example", "%r: reported example %r, the first falsifying assignment is %r" % (key, shown, exp), key)
 
